@@ -137,6 +137,8 @@ pub struct Ctx {
     pub digests: Vec<(u64, u64)>,
     cur_digest: u64,
     pub want_digest: bool,
+    /// differential mode: observations are executed and digested but not compared with `exp`
+    pub mute: bool,
 }
 
 impl Ctx {
@@ -163,6 +165,7 @@ impl Ctx {
             digests: Vec::new(),
             cur_digest: 0,
             want_digest: false,
+            mute: false,
         }
     }
 
@@ -270,7 +273,7 @@ impl Ctx {
                         s.push(json!(format!("{}({}) = {:?}", method, fmt_args(method, a0, a1, a2), got)));
                     }
                 }
-                if !exp.accepts(&got) {
+                if !self.mute && !exp.accepts(&got) {
                     self.violation(
                         method,
                         class,
@@ -282,6 +285,12 @@ impl Ctx {
                 Some(got)
             }
             Err(msg) => {
+                if self.want_digest {
+                    self.cur_digest = self.cur_digest.rotate_left(5) ^ h64(&(method, a0, a1, a2, "PANIC"));
+                }
+                if self.mute {
+                    return None;
+                }
                 self.violation(
                     method,
                     class,
@@ -313,7 +322,7 @@ impl Ctx {
                 if self.answers.len() < 200_000 {
                     self.answers.insert(h64(&(method, got.len(), got.first().map(|x| h64(x)))));
                 }
-                if got.as_slice() != want {
+                if !self.mute && got.as_slice() != want {
                     let d = want.iter().zip(got.iter()).position(|(a, b)| a != b);
                     let obs = match d {
                         Some(i) => format!("Seq(len {}; first difference at index {}: {:?} instead of {:?})", got.len(), i, got[i], want[i]),
@@ -322,8 +331,34 @@ impl Ctx {
                     self.violation(method, class, format!("{}({})", method, fmt_args(method, 0, a1, 0)), format!("sequence of {} elements", want.len()), obs);
                 }
             }
-            Err(msg) => self.violation(method, class, format!("{}({})", method, fmt_args(method, 0, a1, 0)), format!("sequence of {} elements", want.len()), format!("PANIC: {msg}")),
+            Err(msg) => {
+                if self.want_digest {
+                    self.cur_digest = self.cur_digest.rotate_left(5) ^ h64(&(method, a1, "PANIC"));
+                }
+                if !self.mute {
+                    self.violation(method, class, format!("{}({})", method, fmt_args(method, 0, a1, 0)), format!("sequence of {} elements", want.len()), format!("PANIC: {msg}"));
+                }
+            }
         }
+    }
+
+    pub fn mix_digest(&mut self, d: u64) {
+        self.cur_digest = self.cur_digest.rotate_left(9) ^ d;
+    }
+
+    /// Runs `f` in differential mode (nothing is compared with expectations) and returns the digest
+    /// of every answer it observed.
+    pub fn digest_of(&mut self, f: impl FnOnce(&mut Ctx)) -> u64 {
+        let (m, w, d) = (self.mute, self.want_digest, self.cur_digest);
+        self.mute = true;
+        self.want_digest = true;
+        self.cur_digest = 0;
+        f(self);
+        let out = self.cur_digest;
+        self.mute = m;
+        self.want_digest = w;
+        self.cur_digest = d;
+        out
     }
 
     /// An observation whose only requirement is "returns without panicking".
@@ -566,6 +601,11 @@ pub fn main_with<C: Case>(enumerate: impl Fn(&Args) -> Vec<C>) {
         return;
     }
     let cases = enumerate(&args);
+    if let Some(pos) = args.extra.iter().position(|x| x == "--describe") {
+        let idx: usize = args.extra[pos + 1].parse().unwrap();
+        println!("{}", serde_json::to_string(&cases[idx]).unwrap());
+        return;
+    }
     if let Some((k, n, start)) = args.child {
         child_main(&args, &cases, k, n, start);
         return;
